@@ -390,7 +390,8 @@ func platformVar(name string) markerVar {
 // valid PEP 440 version.
 func mkMarkerVar(name, value string) markerVar {
 	mv := markerVar{name: name, value: value}
-	v, err := semver.PyPI.Parse(value)
+	// PEP 440: whitespace around a version is ignored.
+	v, err := semver.PyPI.Parse(strings.TrimSpace(value))
 	if err == nil {
 		mv.version = v
 	}
@@ -457,8 +458,12 @@ func (me markerExpr) Eval(extras map[string]bool) bool {
 		return me.left.value < me.right.value
 	case markerOpNotEqual:
 		return me.left.value != me.right.value
-	case markerOpEqualEqual, markerOpEqualEqualEqual:
+	case markerOpEqualEqual:
 		return me.left.value == me.right.value
+	case markerOpEqualEqualEqual:
+		// The right operand is the text of a specifier: whitespace around
+		// it is not part of the value.
+		return me.left.value == strings.TrimSpace(me.right.value)
 	case markerOpGreaterEqual:
 		return me.left.value >= me.right.value
 	case markerOpGreater:
